@@ -1,5 +1,4 @@
 // ---- platform and std stubs (assumed contracts; every item here is listed in the evidence) ----
-global size_of usize == 8;
 
 // a documented run-time panic: modelled as "does not return"
 #[verifier::external_body]
@@ -53,6 +52,24 @@ pub fn vx_map_collect_u64<T, F: Fn(u64) -> T>(lo: u64, hi: u64, f: F) -> (v: Vec
     {
         let x = f(i);
         v.push(x);
+        i += 1;
+    }
+    v
+}
+
+// `(a..b).collect()` into a Vec<usize>: rendered as a call to this function (body verified here)
+pub fn vx_range_collect(lo: usize, hi: usize) -> (v: Vec<usize>)
+    ensures v@.len() == (if hi >= lo { hi - lo } else { 0 }),
+        forall|i: int| 0 <= i < v@.len() ==> #[trigger] v@[i] == lo + i,
+{
+    let mut v: Vec<usize> = Vec::new();
+    let mut i = lo;
+    while i < hi
+        invariant lo <= i <= hi || (hi < lo && i == lo), v@.len() == i - lo,
+            forall|j: int| 0 <= j < v@.len() ==> #[trigger] v@[j] == lo + j,
+        decreases hi - i,
+    {
+        v.push(i);
         i += 1;
     }
     v
